@@ -107,6 +107,17 @@ def check_result(P, tt, X, want_kind, want_N, want_M, caps_by_bond, rho, eps, ca
     problems = []
     if not isinstance(X, tt.TT):
         return [P("kind", "%s: returned %s" % (label, type(X).__name__))]
+    # "an object of exactly the requested shape": what the cores describe and what the object reports are both compared
+    # with the request under the operation's own property; remaining inconsistencies are well-formedness matters (C05)
+    try:
+        d0 = project.derived_desc(X.cores)
+        if d0["k"] != want_kind or d0["N"] != want_N or d0["M"] != want_M:
+            return [P("shape", "%s: the cores describe %s N=%s M=%s, requested %s N=%s M=%s" % (label, d0["k"], d0["N"], d0["M"], want_kind, want_N, want_M))]
+        rep = ("ttm" if X.is_ttm else "tt", [int(n) for n in X.N], [int(m) for m in X.M] if X.is_ttm else [])
+        if rep != (want_kind, list(want_N), list(want_M)):
+            return [P("shape", "%s: the object reports %s N=%s M=%s, requested %s N=%s M=%s" % (label, rep[0], rep[1], rep[2], want_kind, want_N, want_M))]
+    except Exception:   # noqa  cores that are not even a chain: reported below
+        pass
     wf = project.wf_problems(X)
     if wf:
         return [dict(P("ill-formed", "%s: %s" % (label, wf)), prop="C05")]
